@@ -378,7 +378,12 @@ pub fn run(ctx: &mut Ctx) -> Result<(), Violation> {
         cfg.max_list = 3;
         cfg.max_fix_nest = 3;
         cfg.fix_var_bias = 130;
-        let ast = gen::fix_formula(&mut t, &cfg);
+        let ast = match t.choose(8) {
+            0 => gen::chain_fix(&mut t, &cfg),
+            // a chain as long as the lattice allows: 2^k applications over k variables
+            1 => gen::path_chain_fix(&mut t, &cfg),
+            _ => gen::fix_formula(&mut t, &cfg),
+        };
         let ast = if t.flag() {
             RAst::bin(crate::rast::BINOPS[t.choose(8)], gen::formula(&mut t, &cfg), ast)
         } else {
